@@ -258,12 +258,12 @@ class _Num(Sym):
         return self._bin(o, lambda a, b: b * a)
 
     def __truediv__(self, o):
-        if isinstance(o, _Num) and _CTX is not None and _CTX.ex.nonlinear:
+        if isinstance(o, _Num) and _CTX is not None and _CTX.ex.purify_div:
             return _purified_div(self, o)
         return self._bin(o, lambda a, b: a / b, int_ok=False)
 
     def __rtruediv__(self, o):
-        if _CTX is not None and _CTX.ex.nonlinear:
+        if _CTX is not None and _CTX.ex.purify_div:
             return _purified_div(o, self)
         return self._bin(o, lambda a, b: b / a, int_ok=False)
 
@@ -1338,7 +1338,7 @@ class Explorer:
     def __init__(self, config_name='', config_params=None, branch_timeout_ms=20000,
                  prove_timeout_ms=60000, max_fanout=64, max_paths=None,
                  max_cex=5, split_depth=None, prefix=None, dump_smt=0,
-                 witness_every=0, seed=0, nonlinear=False, robust=False, fork_ite=False):
+                 witness_every=0, seed=0, nonlinear=False, robust=False, fork_ite=False, purify_div=False):
         self.config_name = config_name
         self.config_params = config_params or {}
         self.branch_timeout_ms = branch_timeout_ms
@@ -1365,6 +1365,7 @@ class Explorer:
         self.robust = robust
         self.witness_skipped = 0
         self.fork_ite = fork_ite
+        self.purify_div = purify_div
 
     def run(self, fn):
         global _CTX
